@@ -143,4 +143,13 @@ def search(acc: Acc, tier, shard, nshards):
 
 
 def replay(case):
-    return check(case["doc"], [(case.get("surface", "replay"), case["text"])]) if "doc" in case else []
+    if "doc" in case:
+        return check(case["doc"], [(case.get("surface", "replay"), case["text"])])
+    # literal form: {"text":..., "expect": {...}}
+    W = env.Workers.get()
+    try:
+        d = W.loads(case["text"])
+    except Exception as e:
+        return [Discrepancy(f"load:{type(e).__name__}", f"loads raised {type(e).__name__}: {str(e)[:200]}", case)]
+    return [Discrepancy(bucket_of("contract", loc, msg), f"at {loc}: {msg}", case)
+            for loc, msg in refdict.compare(case["expect"], d)][:1]
